@@ -445,6 +445,25 @@ def run_step_condfail(case):
 HANDLERS['step_condfail'] = run_step_condfail
 
 
+def run_it_block(case):
+    """run `steps` emulate_cycles (an IT instruction and the instructions after it); returns [0, r0, r1, r2, r3, NZCV, ITSTATE]
+    or the encoding of a host error"""
+    import implrun
+    arm = build(case['state'])
+    try:
+        with contextlib.redirect_stdout(io.StringIO()):
+            for _ in range(case['steps']):
+                arm.emulate_cycle()
+    except Exception as e:  # noqa
+        return implrun.exn_enc(e)
+    c = arm.registers.cpsr.value
+    it = (((c >> 10) & 0x3F) << 2) | ((c >> 25) & 3)
+    return [0] + [arm.registers.get(k) for k in range(4)] + [(c >> 28) & 0xF, it]
+
+
+HANDLERS['it_block'] = run_it_block
+
+
 def run_classify(case):
     """class codes of a batch of instruction words (ARM, or Thumb 32-bit) through the pure decoders; -1 for none/errors"""
     import importlib
